@@ -485,6 +485,7 @@ class Machine:
         from . import lib_std
         lib_std.install(self)
         lib_std.install2(self)
+        lib_std.install3(self)
 
     def reset(self):
         """Forget all per-path state (the static indexes and summaries are kept)."""
